@@ -102,11 +102,30 @@ def lit_seq(pyval, kind):
     return VSeq(t, kind, py=pyval)
 
 
+def as_vlist(v, et="any"):
+    """static list / empty literal -> boxed list value (None if not convertible)"""
+    if isinstance(v, VList):
+        return v
+    if isinstance(v, VTuple) and getattr(v, "is_list", False):
+        return VList(mk_vsq([box(x) for x in v.items]), et, "list")
+    if isinstance(v, VSeq) and v.kind == "ilist" and z3.eq(v.t, IS.empty):
+        return VList(VS.empty, et, "list")
+    return None
+
+
 def ite_val(c, a, b):
     if z3.is_true(c):
         return a
     if z3.is_false(c):
         return b
+    def _staticlist(v):
+        return (isinstance(v, VTuple) and getattr(v, "is_list", False)) or \
+            (isinstance(v, VSeq) and v.kind == "ilist" and z3.eq(v.t, IS.empty))
+    if (isinstance(a, VList) != isinstance(b, VList)) or (_staticlist(a) and _staticlist(b) and type(a) is not type(b)) \
+            or (_staticlist(a) and _staticlist(b) and isinstance(a, VTuple) and len(a.items) != len(b.items)):
+        a2, b2 = as_vlist(a, getattr(b, "et", "any")), as_vlist(b, getattr(a, "et", "any"))
+        if a2 is not None and b2 is not None:
+            a, b = a2, b2
     if isinstance(a, VInt) and isinstance(b, VInt):
         return VInt(z3.If(c, a.t, b.t))
     if isinstance(a, VBool) and isinstance(b, VBool):
@@ -723,6 +742,9 @@ class Engine:
         out = []
         for s, vals in self.evs(e.elts, st):
             if self.spec_mode:
+                if vals and not all(isinstance(v, (VInt,)) for v in vals):
+                    out.append((s, VTuple([self.deref(s, v) for v in vals], is_list=True)))
+                    continue
                 if all(isinstance(v, (VInt,)) for v in vals):
                     t = IS.empty
                     for v in vals:
@@ -844,8 +866,12 @@ class Engine:
                         self.implicit_error(st, False, "TypeError", node, "concat")
                 return VSeq(IS.cat(a.t, b.t), a.kind,
                             py=(a.py + b.py) if (a.py is not None and b.py is not None and type(a.py) is type(b.py)) else None)
+            if isinstance(a, VList) != isinstance(b, VList):
+                a2, b2 = as_vlist(a, getattr(b, "et", "any")), as_vlist(b, getattr(a, "et", "any"))
+                if a2 is not None and b2 is not None:
+                    a, b = a2, b2
             if isinstance(a, VList) and isinstance(b, VList):
-                return VList(VS.cat(a.t, b.t), a.et if a.et == b.et else "any", a.kind)
+                return VList(VS.cat(a.t, b.t), a.et if a.et == b.et else (a.et if b.et == "any" else b.et if a.et == "any" else "any"), a.kind)
             if isinstance(a, VList) and isinstance(b, VSeq) and b.kind == "ilist" and self.spec_mode:
                 raise Unsupported("list + ilist in spec")
             if isinstance(a, VTuple) and isinstance(b, VTuple):
@@ -1256,6 +1282,46 @@ class Engine:
                 s1.heap[ident] = VList(Lst, ("record", rname), "list")
                 self.fr.assumed_used.add(f"dissect.cstruct read model derived from the definitions loaded into {modname}.{inst}")
                 outs.append((s1, VRef(ident, "list")))
+        return outs
+
+    def ev_DictComp(self, e, st):
+        """{k(x): v(x) for x in xs}: the resulting dict is left unconstrained (a fresh dict); exceptions of the key/value
+        expressions are propagated for an arbitrary element.  (Content is covered by bounded stand-ins where needed.)"""
+        from .heapmodel import new_dict
+        if len(e.generators) != 1 or e.generators[0].ifs:
+            raise Unsupported("dict comprehension with filters / nested generators")
+        outs = []
+        for s, src in self.ev(e.generators[0].iter, st):
+            src = self.deref(s, src)
+            if not isinstance(src, (VList, VSeq)):
+                raise Unsupported(f"dict comprehension over {src!r}")
+            k = fresh("k", I)
+            probe = s.fork()
+            if isinstance(src, VList):
+                probe.assume(0 <= k, k < VS.len(src.t))
+                elem = unbox(VS.at(src.t, k), src.et)
+            else:
+                probe.assume(0 <= k, k < IS.len(src.t))
+                elem = VInt(IS.at(src.t, k))
+            from .verify import copy_load
+            for ps in self.assign(probe, e.generators[0].target, elem, e):
+                self.evs([e.key, e.value], ps)          # only for the exceptional outcomes (routed via throw)
+            ref = new_dict(self, s, log=fresh("dlog", VSq))
+            self.fr.notes.append(f"dict comprehension at line {e.lineno}: content unconstrained")
+            outs.append((s, ref))
+        return outs
+
+    def ev_Dict(self, e, st):
+        from .heapmodel import new_dict, dict_set
+        if any(k is None for k in e.keys):
+            raise Unsupported("dict unpacking")
+        outs = []
+        for s, vals in self.evs(list(e.keys) + list(e.values), st):
+            ref = new_dict(self, s)
+            n = len(e.keys)
+            for k, v in zip(vals[:n], vals[n:]):
+                dict_set(self, s, ref, s.heap[ref.ident], k, v)
+            outs.append((s, ref))
         return outs
 
     def ev_Lambda(self, e, st):
